@@ -1,6 +1,9 @@
 //! vh — the verification harness for sbstp/attohttpc. `vh <ID> <quick|thorough>` or
 //! `vh <ID> --replay <file>`. Exit 0: held on everything explored; 1: violation; 2: machinery error.
 #![allow(dead_code)]
+mod alloc;
+mod c03;
+mod c05;
 mod common;
 mod e1;
 mod refs;
@@ -9,6 +12,9 @@ mod wirechecks;
 mod wires;
 
 use common::*;
+
+#[global_allocator]
+static GLOBAL: alloc::Counting = alloc::Counting;
 
 fn usage() -> ! {
     eprintln!("usage: vh <C01..C19> <quick|thorough> | vh <ID> --replay <file>");
@@ -23,6 +29,14 @@ fn main() {
     scrub_env();
     install_quiet_panic_hook();
     let id: &'static str = Box::leak(args[1].clone().into_boxed_str());
+    if args[2] == "--worker" {
+        // worker subprocesses of checks that isolate cases in processes
+        let code = match id {
+            "C05" => c05::worker(&args[3..]),
+            _ => 2,
+        };
+        std::process::exit(code);
+    }
     if args[2] == "--replay" {
         let path = args.get(3).unwrap_or_else(|| usage());
         let text = std::fs::read_to_string(path).expect("cannot read replay file");
@@ -61,8 +75,14 @@ type ReplayFn = fn(&serde_json::Value) -> i32;
 const CHECKS: &[(&str, CheckFn)] = &[
     ("C01", wirechecks::c01),
     ("C02", wirechecks::c02),
+    ("C03", c03::c03),
+    ("C05", c05::c05),
     ("C19", wirechecks::c19),
 ];
 
 /// replay-file "engine" tag -> replayer
-const REPLAYERS: &[(&str, ReplayFn)] = &[("e1", wirechecks::replay_e1)];
+const REPLAYERS: &[(&str, ReplayFn)] = &[
+    ("e1", wirechecks::replay_e1),
+    ("c03", c03::replay),
+    ("c05", c05::replay),
+];
